@@ -562,14 +562,24 @@ def main(argv: list[str] | None = None) -> int:
                 unknown = list(pool.map(_shrink_bucket, [(pid, b, budget) for b in unknown[:200]])) + unknown[200:]
             except Exception as e:
                 total.harness_errors.append(f"shrink failure: {type(e).__name__}: {e}")
+        clean = True
+    except BaseException:
+        clean = False
+        raise
     finally:
         procs = list((getattr(pool, "_processes", None) or {}).values())
-        pool.shutdown(wait=False, cancel_futures=True)
-        for p in procs:
+        if locals().get("clean"):
             try:
-                p.kill()
+                pool.shutdown(wait=True)
             except Exception:
                 pass
+        else:
+            pool.shutdown(wait=False, cancel_futures=True)
+            for p in procs:
+                try:
+                    p.kill()
+                except Exception:
+                    pass
 
     # ---- report -----------------------------------------------------------------------------------
     rc = 0
